@@ -330,6 +330,8 @@ def verify_set_risk(ex, contract, timeout_ms=30000, variant="security"):
             st0.assume(And(parent.term != target.term, E.get(parent, "root").term == root.term, E.get(root, "root").term == root.term, E.get(parent, "now").eq(E.get(root, "now")),
                            Not(dsl.isnan(E.get(target, "_position"))), Not(dsl.isnan(E.get(target, "multiplier"))), cls_in(ex.schema, parent.term, STRAT_CLASSES), cls_in(ex.schema, root.term, STRAT_CLASSES),
                            slot_f(parent.term, target.term) == cidx_f(target.term), cidx_f(target.term) >= 0, E.list_len(target, "_childrenv").r == 0))
+        # T: the root is the target itself or an ancestor of it - never a node below the target
+        st0.assume(slot_f(target.term, root.term) == -1)
         for k in RISK_KEYS + ["now", "_position", "multiplier", "name"]:
             E.ensure(k)
         E = st0.heap.copy()
@@ -361,7 +363,9 @@ def verify_set_risk(ex, contract, timeout_ms=30000, variant="security"):
             want_hist = depth < hist
             ob("history-row-written-iff-depth-below-history", _zb(want_hist) == (len(rows) == 1) if len(rows) <= 1 else False)
             for r in rows:
-                ob("history-row-is-(node-date, risk)", And(r[1].term == target.term, value_same(r[2], F.get(target, "now")), value_same(r[3], F.get(target, "risk_m"))))
+                # the row of the CURRENT date - the root's: a security that never traded is not updated and its own clock lags (the code used the node's
+                # own date before fix F23 and this clause repeated it)
+                ob("history-row-is-(current-date, risk)", And(r[1].term == target.term, value_same(r[2], E.get(root, "now")), value_same(r[3], F.get(target, "risk_m"))))
             if variant == "security":
                 ob("risk-is-unit-risk-x-position-x-multiplier-or-zero-when-flat", value_same(F.get(target, "risk_m"), sec_risk_spec(F, target, frame.tok, E.get(root, "now"))))
                 ob("position-and-multiplier-untouched", And(value_same(F.get(target, "_position"), E.get(target, "_position")), value_same(F.get(target, "multiplier"), E.get(target, "multiplier"))))
